@@ -230,5 +230,9 @@ pub fn matcher_cases(prop: &str, ctx: &Ctx, cfg: &GenCfg, n: u64) -> Vec<(String
             cases.push((format!("cross#{i}"), ledger::gen_cross_contention(&mut rx, cfg)));
         }
     }
+    let mut rs = Rng::new(ctx.seed ^ 0x0051_17e5);
+    for i in 0..(n / 20).max(4) {
+        cases.push((format!("sliver#{i}"), ledger::gen_sliver_holding(&mut rs, cfg)));
+    }
     cases
 }
